@@ -120,7 +120,7 @@ def run_one(args):
         with open(pf, "w") as fh:
             fh.write("".join(sub["header"]) + "".join(sub["hunks"]))
         p = subprocess.run(["patch", "-p1", "-s", "--no-backup-if-mismatch",
-                            "-d", tmp, "-i", pf], capture_output=True, text=True)
+                            "-F", "0", "-d", tmp, "-i", pf], capture_output=True, text=True)
         if p.returncode != 0:
             return name, key, "skip:apply", []
         path = os.path.join(tmp, key[0])
